@@ -224,3 +224,68 @@ def run(run, P, only=None):
     run.stats['nullbelief_call_sites'] = nsites
     run.stats['nullbelief_solver_steps'] = steps
     return md
+
+
+def run_installed(run, P, md=None):
+    """R-NULL-BELIEF (installed call-out): where a library function G is stored into a call-back field of an object X (`X->cb = G`) and G
+    dereferences `param<suffix>` on every path without a test (must-dereference summary), with the parameter of X's record type, the store is
+    reached only on paths that know `X<suffix>` non-NULL.  The persistence set-up installs one call-out under the condition "file A configured OR
+    file B configured" while the call-out uses both file names: with one of them missing the first call crashes."""
+    run.rule(RULE)
+    md = md or summaries(P)
+    n = 0
+    for f in sorted(P.lib_funcs(), key=lambda f: f['name']):
+        sites = []
+        for b, ev in P.events(f):
+            t = ev['e']
+            if t.get('k') == 'asg' and t.get('op') == '=' and ev.get('top'):
+                l, r = strip(t['l']), strip(t['r'])
+                while isinstance(r, dict) and r.get('k') in ('cast', 'un') and (r.get('k') == 'cast' or r.get('op') == '&'):
+                    r = strip(r.get('e'))
+                if isinstance(l, dict) and l.get('k') == 'mem' and l.get('arrow') and isinstance(r, dict) and r.get('k') == 'fn' and r.get('n') in md and ap(l.get('b')):
+                    g = P.funcs.get(r['n'])
+                    if not g:
+                        continue
+                    need = []
+                    for (i, suf), (loc, how) in md[r['n']].items():
+                        if suf and i < len(g['params']) and g['params'][i].get('prec') and g['params'][i].get('prec') == l.get('rec'):
+                            need.append((suf, loc, how))
+                    if need:
+                        sites.append((ev, ap(l['b']), r['n'], need))
+        if not sites:
+            continue
+        name = f['name']
+        tr = set(x + suf for _e, x, _g, need in sites for suf, _l, _h in need)
+        rep = set()
+
+        def on_event(ev, env, ctx):
+            t = ev['e']
+            # a call in between is handed the object and makes the solver forget its fields: what a NULL test established is remembered in the
+            # typestate until the field is assigned again
+            e2 = None
+            if t.get('k') == 'asg' and ap(t.get('l')) in tr and env.ts.get('nn:' + ap(t['l'])):
+                e2 = apply_generic(ev, env, None).copy()
+                del e2.ts['nn:' + ap(t['l'])]
+            base = e2 or env
+            add = [a for a in tr if base.nullf(a) == 'N' and not base.ts.get('nn:' + a)]
+            if add:
+                e2 = (e2 or apply_generic(ev, env, None)).copy()
+                for a in add:
+                    e2.ts['nn:' + a] = 1
+            for sev, x, g, need in sites:
+                if ev is sev:
+                    for suf, loc, how in need:
+                        ok = env.nullf(x + suf) == 'N' or bool(env.ts.get('nn:' + x + suf))
+                        run.oblige(RULE, ok, '%s:installed:%s%s' % (name, g, suf))
+                        if not ok and (ev['loc'], suf) not in rep:
+                            rep.add((ev['loc'], suf))
+                            run.violation(RULE, name, ev['loc'], 'callout-installed-without:%s%s' % (g, suf),
+                                          '%s() is installed as a call-out of the object on a path that does not know its %s non-NULL, but %s() dereferences that field on '
+                                          'every path without a test (%s at %s): the first call crashes' % (g, suf[2:], g, how, loc.rsplit('/', 1)[-1]), ctx.path())
+            return [e2] if e2 is not None else None
+        for sev, x, g, need in sites:
+            n += 1
+            run.instance(RULE, '%s: installs %s()' % (name, g))
+        solve(f, Env(), on_event, None, None, None, key_fn=lambda e: tuple(sorted((a, e.nullf(a)) for a in tr if e.nullf(a))) + tuple(sorted(k for k in e.ts if k.startswith('nn:'))), max_envs=512)
+    run.stats['nullbelief_installed_callouts'] = n
+    return n
